@@ -146,6 +146,12 @@ def crate_source(defs, queries, values):
     lines.append("        }")
     lines.append("        return;")
     lines.append("    }")
+    lines.append("    if let Ok(dir) = std::env::var(\"CORPUS_EXPORT\") {")
+    for i, t in enumerate(queries):
+        lines.append("        x::<%s>(%d, &dir);" % (C.rust_ty(t), i))
+        owner[len(lines)] = ("q", i)
+    lines.append("        return;")
+    lines.append("    }")
     for i, t in enumerate(queries):
         lines.append("    q::<%s>(%d);" % (C.rust_ty(t), i))
         owner[len(lines)] = ("q", i)
@@ -233,6 +239,23 @@ def run_binary(exe, env=None):
         elif parts[0] == "D":
             dd[(int(parts[1]), int(parts[2]))] = parts[3]
     return q, v, dd
+
+
+def run_export(exe, out_dir):
+    """export_all_to(out_dir/<query index>) for every query; returns {index: status}"""
+    import shutil
+    shutil.rmtree(out_dir, ignore_errors=True)
+    os.makedirs(out_dir, exist_ok=True)
+    os.makedirs(RUN_CWD, exist_ok=True)
+    p = vlib.run([exe], cwd=RUN_CWD, env={"CORPUS_EXPORT": out_dir}, timeout=1800)
+    if p.returncode != 0:
+        raise vlib.HarnessError("corpus binary (export mode) failed: %s" % p.stderr[-2000:])
+    st = {}
+    for line in p.stdout.split("\n"):
+        parts = line.split("\x02")
+        if parts[0] == "X":
+            st[int(parts[1])] = parts[2]
+    return st
 
 
 def canon_real(field, s):
@@ -367,6 +390,9 @@ def corpus(seed, ndefs, nvalues=3, tag="main", log=vlib.log, use_cache=True, ext
         json.dump(dict(defs=defs, queries=queries, values={str(k): x for k, x in values.items()}, q={str(k): x for k, x in q.items()},
                        v={"%d,%d" % k: x for k, x in v.items()}, rejected=rejected, exe=exe), open(cpath, "w"), default=str)
     # the model: environment compiled once, queries evaluated in parallel shards
+    okb, outb = vlib.coq_make(["theories/Model/GenExport.vo", "theories/Tools/Digest.vo", "theories/Proofs/Gen_decl_proofs.vo"])
+    if not okb:
+        raise vlib.HarnessError("the executable model does not build: " + outb[-2000:])
     ok, out = coq_keep(envname, env_file(res["defs"]))
     if not ok:
         raise vlib.HarnessError("corpus environment does not compile in Coq: " + out[-3000:])
